@@ -61,8 +61,7 @@ def allowList : List Allowed := [
   ⟨"ext.py", "Extension.parse", "NotImplementedError", 1,
    "base-class default; only reached by an extension that declares tags without overriding parse (bundled ones override)"⟩,
   ⟨"ext.py", "InternationalizationExtension._parse_block", "RuntimeError", 1,
-   "`internal parser error`: same loop as subparse over the same shape (data / variable_begin / block_begin / eof), "
-   ++ "covered by wrap_shape; direct oracle on trans blocks"⟩,
+   "`internal parser error`: theorem trans_block_no_internal over wrap_shape (the loop is entered after a block_end)"⟩,
   ⟨"ext.py", "babel_extract", "<reraise>", 1, "message extraction API, not template loading"⟩]
 
 /-- the assert statements, all import-time or argument checks -/
